@@ -20,7 +20,7 @@ def main():
     vf.build("hooks")
     c.model("Abi.tla", "AbiSmall.cfg" if c.thorough else "AbiSmallQuick.cfg")
     abidiff, abidw = vf.tool("hooks", "abidiff"), vf.tool("hooks", "abidw")
-    cases = campaign.programs(c, 400 if c.thorough else 30) + campaign.programs(c, 200 if c.thorough else 15, name="gencxx", Lang='"cxx"')
+    cases = campaign.programs(c, 160 if c.thorough else 30) + campaign.programs(c, 80 if c.thorough else 15, name="gencxx", Lang='"cxx"')
     comps = ["gcc", "clang", "gcc-dwarf4", "clang-dwarf5"] if c.thorough else ["gcc", "clang"]
     sets = optsets(c)
 
@@ -32,7 +32,7 @@ def main():
         env = vf.henv(d)
         evs = []
         # thorough: all 128 option sets for every eighth program, 24 sampled sets for the others
-        for k, o in enumerate((sets if idx % 8 == 0 else c.rng.sample(sets, 24) + [[], list(LOSSLESS)]) if c.thorough else c.rng.sample(sets, 6) + [[], list(LOSSLESS)]):
+        for k, o in enumerate((sets if idx % 8 == 0 else c.rng.sample(sets, 16) + [[], list(LOSSLESS)]) if c.thorough else c.rng.sample(sets, 6) + [[], list(LOSSLESS)]):
             fl = [x for s in o for x in s.split()]
             abi = "%s.%d.abi" % (path, k)
             rw = vf.run([abidw] + fl + ["--out-file", abi, path], env=env)
@@ -53,7 +53,7 @@ def main():
     c.cov["programs"] = len(cases)
     c.cov["distinct_nontrivial"] = len({(e["case"], e["comp"], e["opts"]) for e in events if e["opts"] and campaign.nontrivial_program(cases[e["case"]])})
     c.cov["rule"] = ("TLC-generated programs (Abi.tla) x %s x subsets of the 7 lossless abidw options (%s); per triple: abidw, abidiff B B.abi, abidw --abidiff; "
-                     "non-trivial = distinct (program with >= 2 composite type kinds, compiler, non-empty option set)" % (comps, "all 128 (every eighth program) or 26 per program" if c.thorough else "8 per program"))
+                     "non-trivial = distinct (program with >= 2 composite type kinds, compiler, non-empty option set)" % (comps, "all 128 (every eighth program) or 18 per program" if c.thorough else "8 per program"))
     for e in events[:3]:
         c.sample(e)
     case_of = lambda ev: campaign.case_files(os.path.join(c.workdir, "p%d" % ev["case"]))
